@@ -262,6 +262,14 @@ def load_realign(repo):
         import gaftools.utils  # noqa: F401,F811
 
         mod = importlib.import_module("gaftools.cli.realign")
+        try:
+            import warnings
+
+            with warnings.catch_warnings():
+                warnings.simplefilter("ignore")
+                _MOD_INFO["cli_main"] = importlib.import_module("gaftools.__main__")
+        except Exception:
+            _MOD_INFO["cli_main"] = None
     finally:
         for k in list(sys.modules):
             if k == "multiprocessing" or k.startswith("multiprocessing.") or k in ("time", "signal", "os"):
@@ -444,6 +452,29 @@ def _on_step(kernel, act, op):
         w.note_probe("fault_fired")
 
 
+class _NullStream:
+    def write(self, *_):
+        return 0
+
+    def flush(self):
+        pass
+
+
+def _invoke_cli(gaf, gfa, fasta, out, cores):
+    """the whole command line path: gaftools.__main__.main(["realign", ...])"""
+    import warnings
+
+    gm = _MOD_INFO["cli_main"]
+    if simmp.WORLD is not None:
+        simmp.WORLD.note_probe("entered_through_cli_main")
+    argv = ["realign", gaf, gfa, fasta, "-c", str(cores)]
+    if out is not None:
+        argv += ["-o", out]
+    with warnings.catch_warnings():
+        warnings.simplefilter("ignore")
+        return gm.main(argv)
+
+
 def _invoke(mod, gaf, gfa, fasta, out, cores):
     """run the subcommand the way the command line does: parse the arguments with the module's own
     add_arguments() and call its main(args); fall back to run_realign() if that interface is gone"""
@@ -576,7 +607,10 @@ def run_sim(repo, paths, cfg, decisions=None, keep_trace=True):
     def parent_body(task):
         try:
             try:
-                _invoke(mod, paths["gaf"], paths["gfa"], paths["fasta"], None if to_stdout else out, cfg["cores"])
+                if cfg.get("cli") and _MOD_INFO.get("cli_main") is not None:
+                    _invoke_cli(paths["gaf"], paths["gfa"], paths["fasta"], None if to_stdout else out, cfg["cores"])
+                else:
+                    _invoke(mod, paths["gaf"], paths["gfa"], paths["fasta"], None if to_stdout else out, cfg["cores"])
                 world.outcome = ["returned", 0]
             except SystemExit as e:
                 c = e.code
@@ -597,6 +631,11 @@ def run_sim(repo, paths, cfg, decisions=None, keep_trace=True):
     simmp.WORLD = world
     SIM_TIME._tick = 0.0
     real_stdout = sys.stdout
+    real_stderr = sys.stderr
+    root_logger = logging.getLogger()
+    saved_handlers, saved_level = list(root_logger.handlers), root_logger.level
+    if cfg.get("cli"):
+        sys.stderr = _NullStream()  # __main__.setup_logging() attaches a stream handler to stderr
     if to_stdout:
         sys.stdout = stdout_buf  # run_realign(output=None) writes the GAF to sys.stdout
     main = kernel.add_task("MainProcess", "P", "P", 0, parent_body)
@@ -607,6 +646,9 @@ def run_sim(repo, paths, cfg, decisions=None, keep_trace=True):
     finally:
         kernel.teardown()
         sys.stdout = real_stdout
+        sys.stderr = real_stderr
+        root_logger.handlers[:] = saved_handlers
+        root_logger.setLevel(saved_level)
         for f in world.open_files:
             try:
                 if not f.closed:
